@@ -72,6 +72,7 @@ class StepClock:
         self.sweeps = 0
         self.diffs = []
         self.prev_vals = None
+        self.prev2_vals = None
         self.max_sweeps = 0
         self.total_sweeps = 0
         self.interrupt_site = None
@@ -117,6 +118,7 @@ class StepClock:
         self.total_sweeps = 0
         self.diffs = []
         self.prev_vals = None
+        self.prev2_vals = None
         self.interrupt_site = None
 
     def disarm(self):
@@ -125,6 +127,7 @@ class StepClock:
         self.step_cap = None
         self.loop_frame = None
         self.prev_vals = None
+        self.prev2_vals = None
         return self.steps
 
     # -- callbacks -----------------------------------------------------------
@@ -168,6 +171,7 @@ class StepClock:
             self.sweeps = 0
             self.diffs = []
             self.prev_vals = None
+            self.prev2_vals = None
         self.sweeps += 1
         self.total_sweeps += 1
         if self.sweeps > self.max_sweeps:
@@ -175,7 +179,7 @@ class StepClock:
         if self.sweep_cap is None:
             return
         n = self.sweeps
-        if n < self.CHECK_FROM - self.WINDOW:
+        if n < self.CHECK_FROM - 2 * self.WINDOW:
             return
         loc = frame.f_locals
         d = loc.get("diff")
@@ -184,9 +188,10 @@ class StepClock:
             if len(self.diffs) > 4 * self.WINDOW:
                 del self.diffs[: 2 * self.WINDOW]
         if (n - self.CHECK_FROM) % self.CHECK_EVERY == 0:
-            # WINDOW == CHECK_EVERY: prev_vals is the state WINDOW sweeps ago
+            # WINDOW == CHECK_EVERY: prev_vals / prev2_vals are the states WINDOW / 2*WINDOW sweeps ago
             vals = self._state_values(loc)
             verdict = self._classify(vals) if n >= self.CHECK_FROM else None
+            self.prev2_vals = self.prev_vals
             self.prev_vals = vals
             if verdict is not None:
                 self.sweep_cap = None
@@ -227,14 +232,18 @@ class StepClock:
         if abs(b / a - 1.0) > self.RATIO_EPS:
             return None
         # the diff has been constant over a whole window: linear growth.
+        # which per-state quantities grow *linearly* (same change in two consecutive
+        # windows)?  Slow geometric convergers change far less in the second window.
         moving = None
-        if vals is not None and self.prev_vals is not None:
+        if vals is not None and self.prev_vals is not None and self.prev2_vals is not None:
             moving = []
             for k in sorted(vals):
-                p = self.prev_vals.get(k)
-                c = vals[k]
-                if p is None or len(p) != len(c):
+                p, p2, c = self.prev_vals.get(k), self.prev2_vals.get(k), vals[k]
+                if p is None or p2 is None or len(p) != len(c) or len(p2) != len(c):
                     continue
-                if any(abs(x - y) > 1e-6 * (1.0 + abs(y)) for x, y in zip(c, p)):
+                d2 = max(abs(x - y) for x, y in zip(c, p))
+                d1 = max(abs(x - y) for x, y in zip(p, p2))
+                scale = max(abs(y) for y in p)
+                if d2 > 1e-6 * (1.0 + scale) and d2 >= 0.9 * d1:
                     moving.append(k)
         return {"site": self.loop_site, "sweeps": self.sweeps, "diff": b, "moving": moving}
